@@ -97,7 +97,9 @@ def run(ctx):
     ctx.trusted_base = common.COMMON_TRUSTED + [
         "two model runs per request: Model/Setup.v fed with the decisions of the real resolver (captured by a spy), and "
         "the composed model Model/SetupFull.v (setup + the resolver of C03) fed with NO decisions; compared: success, "
-        "environment, aliases, decisions",
+        "environment, aliases, decisions; a third run, the text-fed model Model/SetupText.v (C11's parser model, "
+        "expandEupsVariables, command kinds, processArgs, then Model/Setup.v) starts from the table texts and is fed "
+        "the same decisions; every table is also compared action by action",
         "the shell's alias state across the two commands is reconstructed from Eups.aliases / Eups.oldAliases the way "
         "app.setup emits them (define, then remove the old names that are not defined again)"]
     ctx.assumptions = ["one stack, one flavor, declared products only", "WF2 of Proofs/SetupInv.v for the theorems",
@@ -111,6 +113,11 @@ def run(ctx):
         ctx.sample({"requests": s["requests"], "env0": s["env0"], "products": s["world"]["products"]})
     for i in range(0, len(scenarios), 400):
         S.run_scenarios(ctx, scenarios[i:i + 400], oracle)
+    # setup then unsetup on worlds whose table texts vary (see harness/setupsim.py gen_scenario_text): the text-fed
+    # model of coq/Model/SetupText.v is the one that reads them
+    textual = [S.gen_scenario_text(ctx.rng, inverse=True) for _ in range(ctx.size(60, 900))]
+    for i in range(0, len(textual), 400):
+        S.run_scenarios(ctx, textual[i:i + 400], oracle)
 
 
 def replay(ctx, path):
